@@ -48,37 +48,41 @@ Definition members (ops : list (xop Z)) : list xcomp := flat_map op_members ops.
 (* ---- specification oracle on the implementation's outputs (no model) ----
    1  something emitted in the reused-and-scribbled run differs from the fresh run
    2  a component wrote into a caller buffer
-   3  code 1 for a history through the outgoing-RTCP dumper (packetdump sender hands
-      the caller's []rtcp.Packet to the logger goroutine): known finding
-   4  code 1 for a history about the caller's attributes MAP through a component
-      modelled as keeping it (gcc leaky bucket pacer, packetdump): known finding *)
+   The property names "the payload slice, read buffer and header".  Histories about
+   the caller's OUTGOING RTCP PACKET OBJECTS through the packetdump sender
+   (DumpSenderRtcp) and about the caller's ATTRIBUTES MAP through the gcc leaky bucket
+   pacer / packetdump (AttrLeakyBucket, AttrDumpSender) - the roles [xknown_alias]
+   - are OUTSIDE the property text: the oracle asks nothing of them (like the
+   documented exceptions).  They are still generated and still compared with the
+   model ([c13x_mismatches]: the model keeps an alias there), so a change of
+   behaviour shows as a correspondence break; the harness reports how many of
+   them differ as an informational number (meta.json extra). *)
+Definition outside_property (ops : list (xop Z)) : bool :=
+  existsb xexception (members ops) || existsb xknown_alias (members ops).
+
 Definition c13x_spec_code (k : c13x_case) : nat :=
   let '(kind, ops, outA, outB, wrote) := k in
   match wrote with
   | _ :: _ => 2%nat
-  | [] => if existsb xexception (members ops) then 0%nat
-          else if lleqb outA outB then 0%nat
-          else if existsb xknown_alias (members ops)
-               then (if existsb xattr_role (members ops) then 4%nat else 3%nat) else 1%nat
+  | [] => if outside_property ops then 0%nat
+          else if lleqb outA outB then 0%nat else 1%nat
   end.
 
 Definition c13x_spec_failures (cases : list c13x_case) : list (Z * Z) := find_codes c13x_spec_code cases 0.
 
 Definition c13x_spec (k : c13x_case) : Prop :=
   let '(kind, ops, outA, outB, wrote) := k in
-  wrote = [] /\ (existsb xexception (members ops) = false -> outA = outB).
+  wrote = [] /\ (outside_property ops = false -> outA = outB).
 
 Lemma c13x_spec_code_iff k : c13x_spec_code k = 0%nat <-> c13x_spec k.
 Proof.
   destruct k as [[[[kind ops] outA] outB] wrote]. unfold c13x_spec_code, c13x_spec.
   destruct wrote as [|w ws].
-  - destruct (existsb xexception (members ops)).
+  - destruct (outside_property ops).
     + split; [intros _; split; [reflexivity|discriminate]|reflexivity].
     + destruct (lleqb outA outB) eqn:E.
       * apply lleqb_eq in E. split; [intros _; split; [reflexivity|intros _; exact E]|reflexivity].
-      * split.
-        -- destruct (existsb xknown_alias (members ops)); [destruct (existsb xattr_role (members ops))|]; discriminate.
-        -- intros [_ H]. specialize (H eq_refl). apply lleqb_eq in H. congruence.
+      * split; [discriminate|]. intros [_ H]. specialize (H eq_refl). apply lleqb_eq in H. congruence.
   - split; [discriminate|]. intros [H _]. discriminate.
 Qed.
 
